@@ -16,7 +16,10 @@ if [ -f demo.sh ]; then
 fi
 cd /repo || exit 2
 if ! git apply --check "$WT/patch.diff" 2>/dev/null; then (cd "$WT"; git diff -- src > /tmp/seed_patch.diff); P=/tmp/seed_patch.diff; else P="$WT/patch.diff"; fi
-git apply "$P" || { echo "PATCH DOES NOT APPLY"; exit 3; }
+if ! git apply "$P" 2>/dev/null; then
+  git apply --3way "$P" >/dev/null 2>&1 && git reset -q || { echo "PATCH DOES NOT APPLY (even with --3way)"; git reset -q --hard HEAD; exit 3; }
+  echo "(applied with --3way)"; cargo build --offline 2>&1 | grep -E "^error" -A5 | head -10
+fi
 echo "== applied to /repo: $(git diff --stat | tail -1)"
 cd /verif
 for c in "$@"; do
